@@ -306,6 +306,24 @@ def psi4_case(task):
     return {'task': [l, m, list(centre), list(Ns)], 'errs': errs}
 
 
+def high_degree_case(task):
+    """Normalisation of single harmonics at degrees far above the default
+    lmax = 8 (lmax is an unrestricted option): exact Gauss-Legendre
+    quadrature, |<Y|Y> - 1|."""
+    from aurel import maths
+    s, l, m = task
+    try:
+        T, P, W, dphi = H.gauss_legendre_sphere(l + 8, 2 * l + 8)
+        with np.errstate(all='ignore'):
+            y = maths.sYlm(s, l, m, T, P)
+            e = abs(float(np.sum(np.abs(y) ** 2 * W * dphi)) - 1.0)
+        return {'task': [s, l, m], 'err': e if np.isfinite(e)
+                else float('inf')}
+    except Exception as ex:      # noqa: BLE001
+        return {'task': [s, l, m], 'err': float('inf'),
+                'raised': repr(ex)[:100]}
+
+
 def psi4_alias_case(task):
     """Azimuthal content on small grids with lmax + 1 > min(N): a field that
     is trilinear in (x, y, z) is interpolated exactly, so a field of a single
@@ -398,6 +416,17 @@ def main(tier):
                           f"sYlm({s},{l},{m}) at theta = 0 or pi exactly: "
                           f"not finite / discontinuous / wrong size "
                           f"({r.get('pole')})", {'s': s, 'l': l, 'm': m})
+    hd = [(sw, l, m) for l in (24, 32, 48) for sw in (-2, 0, 1)
+          for m in (0, l // 2, l)]
+    for r in runner.pmap(high_degree_case, hd, workers=8):
+        total += 1
+        sw, l, m = r['task']
+        run.seen(('high-degree', sw, l, m))
+        if not r['err'] <= 1e-9:
+            run.violation(f"C20:high-degree-norm:s={sw}:l={l}:m={m}",
+                          f"sYlm({sw},{l},{m}) has norm 1 + {r['err']:.2e} "
+                          "(exact quadrature): the alternating sum loses "
+                          "about 0.3 l digits", {'high_degree': r['task']})
     alias = [('x+iy', (6, 6, 6), (0.0, 0.0, 0.0), 12, 1.5),
              ('xy', (10, 6, 8), (0.2, -0.1, 0.3), 11, 1.2),
              ('x+iy', (6, 6, 6), (0.0, 0.0, 0.0), 4, 1.5),
